@@ -629,12 +629,13 @@ func init() {
 			"output, class precedence, which-operations), each at margins drawn from 20..120; distinct = distinct case JSON; non-trivial = slip " +
 			"accepted the original definition. Flavors come in inheritance chains of up to three levels whose children re-declare inherited variables " +
 			"with an ancestor's or a new default. Functions, macros, variables, flavors, classes and generic methods are redefined 0-2 times before " +
-			"their load form or the snapshot is taken: what is saved has to be the last definition. About one case in six carries exactly one avoid-set " +
-			"construct (feat=...; counters dirty:<construct>), all others avoid all of them: plain symbols as data, quotes inside quoted lists, empty " +
-			"vectors, fill pointers and array attributes in snapshots, long floats with inexact decimal digits, backquote templates, documentation that " +
-			"wraps (sessions), slot accessors in class load forms, unbound slots with an initform, quoted flavor defaults, parents with variables lacking " +
-			"accessors, unrelated flavors in one session, flavor methods and classes in sessions, variables/functions/exports/use graphs of user " +
-			"packages in sessions, closures over let bindings, undefined callees, a failed send before a snapshot",
+			"their load form or the snapshot is taken: what is saved has to be the last definition. About one case in eight carries exactly one avoid-set " +
+			"construct (feat=...; counters dirty:<construct>), all others avoid all of them: plain symbols at top level, quotes inside quoted lists, " +
+			"long floats with inexact decimal digits, slot accessors in class load forms, unbound slots with an initform, a child flavor re-declaring " +
+			"a component's variable with the same default, list defaults in a component flavor, classes in sessions, variables and functions of user " +
+			"packages in sessions, closures over let bindings. Repaired constructs (backquote templates, wrapped documentation, deep indentation, " +
+			"symbols in lists, empty vectors, array attributes, quoted flavor defaults, flavor methods/daemons/whoppers, several unrelated flavors, " +
+			"package exports and use graphs, undefined callees, a failed send before the snapshot) are generated in the clean stream",
 		N:        nCases,
 		Gen:      gen,
 		Exec:     exec,
